@@ -1,4 +1,5 @@
 import NeumannModel.KV.Model
+import NeumannModel.KV.ScanLemmas
 /-
   Helper lemmas for C11 (core Lean only).
 -/
@@ -155,18 +156,19 @@ theorem Abs.delCache {s : Store} {σ : Spec} (h : Abs s σ) (k : Key) (hk : k.cl
     · simp [e, h.cacheOnly k' hk']
   · exact h.vocab
 
-/-- a key is in the model's scan iff it is in the specification's -/
-theorem Abs.scan {s : Store} {σ : Spec} (h : Abs s σ) (p : Option KeyClass) (k : Key) :
-    k ∈ scanNow s p ↔ k ∈ (σ.map (·.1)).filter (pmatch p) := by
+/-- a key is in the model's scan iff it is in the specification's (a prefix with an end key) -/
+theorem Abs.scan {s : Store} {σ : Spec} (h : Abs s σ) (p : List Nat) (hb : boundedPrefix p = true)
+    (k : Key) : k ∈ scanNow s p ↔ k ∈ (σ.map (·.1)).filter (pmatch p) := by
   simp only [scanNow, h.vocab, liveKeys, List.filter_nil, List.map_nil, List.append_nil,
-    List.mem_append, List.mem_filter, mem_keys_iff, h.get k]
+    List.mem_append, List.mem_filter, mem_keys_iff, h.get k, mdMatch_eq_pmatch hb]
   by_cases hk : k.cls = .cache
   · simp [hk, h.mdNoCache k hk]
   · simp [hk, h.cacheOnly k hk]
 
 /-! ### one single-step operation = one step of the specification -/
 
-theorem single_step_refines {s : Store} {σ : Spec} (h : Abs s σ) (op : Op) (hs : op.singleStep) :
+theorem single_step_refines {s : Store} {σ : Spec} (h : Abs s σ) (op : Op) (hs : op.singleStep)
+    (hsb : op.scanBounded = true) :
     ∃ s' r, stepOp s op .start = (s', .done r) ∧ resEquiv r (specRes σ op) ∧
       Abs s' (specApply σ op) := by
   cases op with
@@ -228,7 +230,7 @@ theorem single_step_refines {s : Store} {σ : Spec} (h : Abs s σ) (op : Op) (hs
   | scan p =>
     refine ⟨s, .keys (scanNow s p), by simp [stepOp], ?_, by simpa [specApply, specStep] using h⟩
     simp only [specRes, specStep, resEquiv]
-    exact ⟨fun k hk => (h.scan p k).mp hk, fun k hk => (h.scan p k).mpr hk⟩
+    exact ⟨fun k hk => (h.scan p hsb k).mp hk, fun k hk => (h.scan p hsb k).mpr hk⟩
   | putD k v =>
     have hc : k.cls = .cache := hs
     refine ⟨{ s with cache := aset s.cache k v }, .ok, ?_, by simp [resEquiv, specRes, specStep], ?_⟩
@@ -254,12 +256,12 @@ theorem single_step_refines {s : Store} {σ : Spec} (h : Abs s σ) (op : Op) (hs
 structure Inv (sys : Sys) : Prop where
   abs : Abs sys.store (specRun [] (sys.hist.map (·.op)))
   strict : SeqStrict [] sys.hist
-  threads : ∀ th ∈ sys.threads, th.pc = .start ∧ ∀ op ∈ th.ops, op.singleStep
+  threads : ∀ th ∈ sys.threads, th.pc = .start ∧ ∀ op ∈ th.ops, op.singleStep ∧ op.scanBounded = true
   times : ∀ r ∈ sys.hist, r.inv = r.ret ∧ r.ret < sys.clock
   sorted : sys.hist.Pairwise (fun a b => a.ret < b.inv)
 
 theorem Inv.init (w : Bool) (progs : List ThreadProgram)
-    (h : ∀ p ∈ progs, ∀ op ∈ p, op.singleStep) : Inv (initSys w progs) := by
+    (h : ∀ p ∈ progs, ∀ op ∈ p, op.singleStep ∧ op.scanBounded = true) : Inv (initSys w progs) := by
   constructor
   · exact Abs.init w
   · trivial
@@ -280,8 +282,8 @@ theorem Inv.stepOld {sys : Sys} (h : Inv sys) (t : Nat) : Inv (stepOld sys t) :=
     · rename_i op rest hops
       have hmem : th ∈ sys.threads := List.mem_of_getElem? hth
       obtain ⟨hpc, hss⟩ := h.threads th hmem
-      have hop : op.singleStep := hss op (by simp [hops])
-      obtain ⟨s', r, hstep, hres, habs⟩ := single_step_refines h.abs op hop
+      have hop := hss op (by simp [hops])
+      obtain ⟨s', r, hstep, hres, habs⟩ := single_step_refines h.abs op hop.1 hop.2
       simp only [hpc, hstep, if_true]
       constructor
       · simp only [List.map_append, List.map_cons, List.map_nil, specRun_append]
@@ -399,10 +401,10 @@ theorem view_of_shape (s1 s2 : Store) (k : Key)
     (hmd : aget s1.md k = aget s2.md k) : view s1 k = view s2 k := by
   obtain ⟨a1, b1, c1⟩ := h1
   obtain ⟨a2, b2, c2⟩ := h2
-  have e1 : decide (k ∈ scanNow s1 none) = (aget s1.md k).isSome := by
-    simp [scanNow, a1, c1, liveKeys, pmatch, mem_keys_iff]
-  have e2 : decide (k ∈ scanNow s2 none) = (aget s2.md k).isSome := by
-    simp [scanNow, a2, c2, liveKeys, pmatch, mem_keys_iff]
+  have e1 : decide (k ∈ scanNow s1 []) = (aget s1.md k).isSome := by
+    simp [scanNow, a1, c1, liveKeys, mdMatch, mem_keys_iff]
+  have e2 : decide (k ∈ scanNow s2 []) = (aget s2.md k).isSome := by
+    simp [scanNow, a2, c2, liveKeys, mdMatch, mem_keys_iff]
   simp only [view, e1, e2]
   cases hcl : k.cls <;>
     simp [seqOp, seqOpAux, stepOp, routerGet, existsNow, mdGet, idxGet, idxGetAux, a1, a2, c1, c2,
@@ -669,10 +671,12 @@ theorem LInv.quiescent_agree {sys : Sys} (h : LInv sys) (hq : quiescent sys = tr
     rw [hq thi (List.mem_of_getElem? hi)] at hopsi
     cases hopsi
 
-/-- a key is listed by a scan with prefix `p` iff it matches the prefix and the full scan lists it -/
-theorem mem_scanNow_iff (s : Store) (p : Option KeyClass) (k : Key) :
-    k ∈ scanNow s p ↔ (pmatch p k = true ∧ k ∈ scanNow s none) := by
-  simp only [scanNow, List.mem_append, List.mem_filter, pmatch]
-  cases p <;> simp only [true_and, and_true] <;> grind
+/-- which keys a scan with prefix `p` lists: what the metadata range selects of the metadata slab,
+    what starts with `p` of the entity index and the cache ring -/
+theorem mem_scanNow_iff (s : Store) (p : List Nat) (k : Key) :
+    k ∈ scanNow s p ↔ ((mdMatch p k = true ∧ (aget s.md k).isSome = true) ∨
+      (pmatch p k = true ∧ (k ∈ liveKeys s.vocab ∨ (aget s.cache k).isSome = true))) := by
+  simp only [scanNow, List.mem_append, List.mem_filter, mem_keys_iff]
+  grind
 
 end Neumann.KV
